@@ -122,10 +122,10 @@ def run_lin(case):
             type(e).__name__, str(e)[:60], sig[:150]), sig="ctor-raised")
     wit = {"desc": desc, "repr": repr(A)}
     ish = tuple(A.ishape)
-    if sum(case["rs"]) % 5 == 0:
+    if sum(case["rs"]) % 5 == 0 and not case.get("force_double"):
         sig += "|c64"
     # a fifth of the cases run in single precision (complex64 data): dtype-specific paths
-    single = (sum(case["rs"]) % 5 == 0)
+    single = (sum(case["rs"]) % 5 == 0) and not case.get("force_double")
     cdt = np.complex64 if single else np.complex128
     tol = 2e-4 if single else 1e-10
     dtol = 1e-5 if single else 1e-12
@@ -694,12 +694,27 @@ def run_kept(case):
     return held(sig, {"rebuilds": n}, n * 8, True)
 
 
+def _overflow_guard(case, res, runner, is_single, to_double):
+    """A violation that shows NaN/inf in a single-precision case may be float32 overflow
+    (un-normalised kernel weights applied several times): decide the same case in double
+    precision; if it holds there the single-precision run says nothing either way."""
+    why = str(res.get("why", ""))
+    if res.get("verdict") == "violated" and is_single and ("nan" in why or "inf" in why):
+        r64 = runner(to_double)
+        if r64.get("verdict") == "held":
+            return {"verdict": "inconclusive", "sig": "c64-overflow", "nontrivial": False,
+                    "why": "single-precision overflow (holds in double precision): " + why[:120]}
+        return r64
+    return res
+
+
 def run_case(case):
     g = case["gen"]
     if g == "kept":
         return run_kept(case)
     if g.startswith("lin:") or g.startswith("lin-big:"):
-        return run_lin(case)
+        return _overflow_guard(case, run_lin(case), run_lin, sum(case["rs"]) % 5 == 0,
+                               dict(case, force_double=True))
     if g == "func":
         return run_func(case)
     if g == "prox":
